@@ -28,6 +28,14 @@ CHECKS = {
              "every UFO3 fontinfo attribute is consumed or reviewed-unused. Field values are not decided.",
         design_ref="DESIGN.md §5 C16", note=STATIC_NOTE,
         technique="static analysis: constant propagation, fallback call-graph cycle check, value-flow sanitiser rule, taint of info-derived fields"),
+    "C13": dict(
+        text="Static: the skip-export stage precedes every other filter in all four pre-processors (dominance / path rules on the "
+             "constructors); both sibling filters decompose with include=<skip set>, decomposeNested=False, delete every skipped glyph "
+             "and report it; every lib-derived assignment of the compiler's skip list is guarded by 'is None' (argument wins); kerning "
+             "groups, recorded pairs (guard formulas by propositional entailment, both kern writers, static and variable) and GDEF "
+             "classes are restricted to the filtered glyph set. Rendering equality of remaining glyphs is not decided.",
+        design_ref="DESIGN.md §5 C13", note=STATIC_NOTE,
+        technique="static analysis: CFG dominance/path rules, sibling agreement, guard entailment over control-dependence facts"),
 }
 
 _TODO = "check not built yet in this session (static rules designed in DESIGN.md §5; will be claimed when the rule set is armed)"
